@@ -14,3 +14,8 @@ pub mod allocator {
 pub mod heap {
     pub use crate::util::heap::space_descriptor::SpaceDescriptor;
 }
+
+/// Utilities in crate-private modules.
+pub mod rust_util {
+    pub use crate::util::rust_util::rev_group::verif_group_by;
+}
